@@ -112,5 +112,141 @@ void e_exponential(void)
     sym_assert(r >= 0.0, "exponential variate is non-negative");
 }
 
+
+/* --- samplers built on the base uniform variate, the ziggurat hot paths and libm: in the engine NaN/infinity show up
+ * as 'fp' reports (log of 0, division by 0, sqrt of a negative value); natively the finiteness assertion fails */
+#define FINITE(r) ((r) == (r) && (r) - (r) == 0.0)
+#ifndef NSHAPE
+#define NSHAPE 4             /* with SHAPE_SYM=0: how many of the concrete shape values are used */
+#endif
+#ifndef SHAPE_SYM
+#define SHAPE_SYM 1          /* 0: the shape parameters are picked from a few concrete values (keeps the rejection test univariate) */
+#endif
+static double shape_param(const char *n, double lo, double hi)
+{
+#if SHAPE_SYM
+    return symd(n, lo, hi);
+#else
+    static const double vals[4] = { 0.125, 2.5, 0.5, 1.0 };
+    (void)lo; (void)hi;
+    return vals[sym_choice(NSHAPE, n)];
+#endif
+}
+void e_logistic(void)
+{
+    double m = symd("m", -100.0, 100.0), s = symd("s", 0.001, 100.0);
+    double r = cmb_random_logistic(m, s);
+    sym_assert(FINITE(r), "logistic variate is finite");
+}
+void e_std_gamma(void)
+{
+    double shape = shape_param("shape", 0.01, 4.0);
+    sym_tag("shape_below_one", shape < 1.0);
+    double r = cmb_random_std_gamma(shape);
+    sym_assert(FINITE(r) && r >= 0.0, "gamma variate is non-negative and finite");
+}
+void e_gamma(void)
+{
+    double shape = shape_param("shape", 0.01, 4.0), scale = symd("scale", 0.001, 100.0);
+    sym_tag("shape_below_one", shape < 1.0);
+    double r = cmb_random_gamma(shape, scale);
+    sym_assert(FINITE(r) && r >= 0.0, "gamma variate is non-negative and finite");
+}
+void e_beta(void)
+{
+    double a = shape_param("a", 0.01, 4.0), b = shape_param("b", 0.01, 4.0), lo = symd("min", -100.0, 100.0), hi = symd("max", -100.0, 100.0);
+    sym_assume(lo < hi);
+    sym_tag("shape_below_one", a < 1.0 || b < 1.0);
+    double r = cmb_random_beta(a, b, lo, hi);
+    sym_assert(FINITE(r) && r >= lo && r <= hi, "beta variate lies within [min, max]");
+}
+void e_pert(void)
+{
+#if SHAPE_SYM
+    double lo = symd("min", -100.0, 100.0), mode = symd("mode", -100.0, 100.0), hi = symd("max", -100.0, 100.0);
+    sym_assume(lo < mode && mode < hi);
+#else
+    /* concrete triples (the beta shapes 1 + 4 (mode - min) / (max - min) are then concrete): symmetric, mode near either end */
+    static const double tri[3][3] = { { 0.0, 5.0, 10.0 }, { -5.0, -4.875, 3.0 }, { 1.0, 8.75, 9.0 } };
+    uint64_t t = sym_choice(3, "triple");
+    double lo = tri[t][0], mode = tri[t][1], hi = tri[t][2];
+#endif
+    double r = cmb_random_PERT(lo, mode, hi);
+    sym_assert(FINITE(r) && r >= lo && r <= hi, "PERT variate lies within [min, max]");
+}
+void e_chisq_f_t(void)
+{
+    double k = shape_param("k", 0.02, 6.0);
+    sym_tag("shape_below_one", k < 2.0);
+#ifdef WHICH
+    uint64_t which = WHICH;
+#else
+    uint64_t which = sym_choice(3, "which");
+#endif
+    if (which == 0) {
+        double r = cmb_random_chisquared(k);
+        sym_assert(FINITE(r) && r >= 0.0, "chi-squared variate is non-negative and finite");
+    } else if (which == 1) {
+        double r = cmb_random_F_dist(k, 3.0);
+        sym_assert(FINITE(r) && r >= 0.0, "F variate is non-negative and finite");
+    } else {
+        double tm = symd("m", -10.0, 10.0), ts = symd("s", 0.01, 10.0);
+        double r = cmb_random_t_dist(tm, ts, k);
+        sym_assert(FINITE(r), "t variate is finite");
+    }
+}
+void e_exp_family(void)
+{
+    double m = symd("mean", 0.001, 100.0);
+    uint64_t which = sym_choice(5, "which");
+    if (which == 0) {
+        double r = cmb_random_exponential(m);
+        sym_assert(FINITE(r) && r >= 0.0, "exponential variate is non-negative and finite");
+    } else if (which == 1) {
+        double r = cmb_random_erlang((unsigned)sym_range(1, 3, "k"), m);
+        sym_assert(FINITE(r) && r >= 0.0, "Erlang variate is non-negative and finite");
+    } else if (which == 2) {
+        double ma[2] = { m, symd("mean2", 0.001, 100.0) };
+        double r = cmb_random_hypoexponential(2, ma);
+        sym_assert(FINITE(r) && r >= 0.0, "hypoexponential variate is non-negative and finite");
+    } else if (which == 3) {
+        double ma[2] = { m, symd("mean2", 0.001, 100.0) }; double pa[2];
+        pa[0] = symd("p", 0.0, 1.0); pa[1] = symd("p", 0.0, 1.0);
+        sym_assume(pa[0] + pa[1] - 1.0 <= TOL && 1.0 - pa[0] - pa[1] <= TOL);
+        double r = cmb_random_hyperexponential(2, ma, pa);
+        sym_assert(FINITE(r) && r >= 0.0, "hyperexponential variate is non-negative and finite");
+    } else {
+        double wshape = symd("shape", 0.1, 8.0);
+        double r = cmb_random_weibull(wshape, m);
+        sym_assert(FINITE(r) && r >= 0.0, "Weibull variate is non-negative and finite");
+    }
+}
+void e_normal_family(void)
+{
+    double m = symd("m", -100.0, 100.0), s = symd("s", 0.001, 100.0);
+    uint64_t which = sym_choice(4, "which");
+    if (which == 0) {
+        double r = cmb_random_normal(m, s);
+        sym_assert(FINITE(r), "normal variate is finite");
+    } else if (which == 1) {
+        double r = cmb_random_lognormal(m, s);
+        sym_assert(r >= 0.0, "lognormal variate is non-negative");
+    } else if (which == 2) {
+        double r = cmb_random_rayleigh(s);
+        sym_assert(FINITE(r) && r >= 0.0, "Rayleigh variate is non-negative and finite");
+    } else {
+        double r = cmb_random_cauchy(m, s);
+        sym_assert(FINITE(r), "Cauchy variate is finite");
+    }
+}
+void e_poisson(void)
+{
+    double rate = symd("rate", 0.01, 3.0);
+    unsigned k = cmb_random_poisson(rate);
+    sym_assert(k < 0x80000000u, "Poisson count does not wrap around");
+}
+
 const struct sym_entry sym_entries[] = { {"e_uniform", e_uniform}, {"e_triangular", e_triangular}, {"e_dice", e_dice}, {"e_loaded_dice", e_loaded_dice},
-    {"e_alias", e_alias}, {"e_pareto", e_pareto}, {"e_geometric", e_geometric}, {"e_negbinomial", e_negbinomial}, {"e_binomial", e_binomial}, {"e_exponential", e_exponential}, {0, 0} };
+    {"e_alias", e_alias}, {"e_pareto", e_pareto}, {"e_geometric", e_geometric}, {"e_negbinomial", e_negbinomial}, {"e_binomial", e_binomial}, {"e_exponential", e_exponential},
+    {"e_logistic", e_logistic}, {"e_std_gamma", e_std_gamma}, {"e_gamma", e_gamma}, {"e_beta", e_beta}, {"e_pert", e_pert}, {"e_chisq_f_t", e_chisq_f_t},
+    {"e_exp_family", e_exp_family}, {"e_normal_family", e_normal_family}, {"e_poisson", e_poisson}, {0, 0} };
